@@ -290,6 +290,7 @@ void* sim_realloc(void* ptr, size_t n) {
   w.requests++; S.t_requests[TK()]++; w.reallocs++; w.realloc_req++;
   if (refuse) { w.refused++; if (w.first_refused == ~0ull) w.first_refused = w.requests - 1; g_log.ev("refuse-realloc", S.blocks[oid].local, n, 0); return nullptr; }
   BlockInfo old = S.blocks[oid];
+  if (n > old.size && old.size >= 64) { double r = (double)n / (double)old.size; if (r < w.min_growth) w.min_growth = r; }
   if (old.task != sched_cur() && sched_active()) fail("C17", "alloc:cross-task-realloc", fmt("task %d resized block #%llu obtained by task %d", sched_cur(), (unsigned long long)oid, old.task));
   if (S.knobs.backend == BE_DIRECT && S.knobs.realloc_mode == 1) {
     // natural libc realloc (may or may not move)
